@@ -840,7 +840,229 @@ def layout_and_cycles_probe(prop, tier, seed, rep, vals_line=None):
     return cov
 
 
-EXTRA_STEPS = {"C16": words_probe, "C15": policy_probe, "C03": layout_and_cycles_probe, "C13": layout_probe}
+class ListsSpec:
+    """The specification of src/lists.rs on plain Python lists (what Proofs/ListsRefine.lean proves the Lean model refines):
+    used to decide whether the crate itself deviates, independently of the Lean model."""
+
+    def __init__(self, n):
+        self.n = n
+        self.l = [[], []]
+        self.p = []
+        self.q = []
+        self.mark = [0] * n
+        self.tc = [0] * n
+        self.ret = "."
+
+    def free(self, x):
+        return x < self.n and all(x not in s for s in (self.l[0], self.l[1], self.p, self.q))
+
+    def step(self, t):
+        self.ret = "."
+        parts = t.split(":")
+        o = parts[0]
+        i = int(o[-1]) if o[-1] in "01" and o[:2] in ("la", "lr", "lf", "ld", "pm", "ps") else None
+        x = int(parts[1]) if len(parts) > 1 else None
+        k = o[:2]
+        if k == "la":
+            if self.free(x):
+                self.l[i].insert(0, x)
+        elif k == "lr":
+            if x in self.l[i]:
+                self.l[i].remove(x)
+        elif k == "lf":
+            if self.l[i]:
+                y = self.l[i].pop(0)
+                self.mark[y] = 0
+                self.ret = str(y)
+            else:
+                self.ret = "none"
+        elif k == "ld":
+            for y in self.l[i]:
+                self.mark[y] = 0
+            self.l[i] = []
+        elif k == "pa":
+            if self.free(x):
+                self.p.insert(0, x)
+        elif k == "pr":
+            if x in self.p:
+                self.p.remove(x)
+        elif k == "pf":
+            if self.p:
+                y = self.p.pop(0)
+                self.mark[y] = 0
+                self.ret = str(y)
+            else:
+                self.ret = "none"
+        elif k == "pm":
+            if x < 4:
+                for y in self.p:
+                    self.mark[y] = x
+                    self.tc[y] = 0
+                self.p = self.p + self.l[i]
+                self.l[i] = []
+        elif k == "ps":
+            self.p, self.l[i] = self.l[i], self.p
+        elif k == "qa":
+            if self.free(x):
+                self.q.append(x)
+        elif k == "qp":
+            if self.q:
+                y = self.q.pop(0)
+                self.mark[y] = 0
+                self.ret = str(y)
+            else:
+                self.ret = "none"
+        elif k == "qd":
+            for y in self.q:
+                self.mark[y] = 0
+            self.q = []
+        elif k == "mk":
+            m = int(parts[2])
+            if x < self.n and m < 4:
+                self.mark[x] = m
+        elif k == "it":
+            if x < self.n:
+                self.tc[x] += 1
+
+    def show(self):
+        nxt = ["-"] * self.n
+        prv = ["-"] * self.n
+        for s in (self.l[0], self.l[1], self.p):
+            for a, b in zip(s, s[1:]):
+                nxt[a] = str(b)
+                prv[b] = str(a)
+        for a, b in zip(self.q, self.q[1:]):
+            nxt[a] = str(b)
+        j = lambda s: ",".join(str(v) for v in s)
+        e = "".join("1" if not s else "0" for s in (self.l[0], self.l[1], self.p, self.q))
+        return "l0=%s l1=%s p=%s#%d q=%s e=%s lk=%s mk=%s tc=%s r=%s" % (
+            j(self.l[0]), j(self.l[1]), j(self.p), len(self.p), j(self.q), e,
+            " ".join("%s/%s" % (nxt[k], prv[k]) for k in range(self.n)), j(self.mark), j(self.tc), self.ret)
+
+
+def lists_case(rng):
+    """One op sequence for the lists mode: mostly operations whose precondition holds, some that must be skipped."""
+    n = rng.choice([1, 2, 3, 4, 5, 6, 8, 12])
+    sp = ListsSpec(n)
+    ops = []
+    for _ in range(rng.choice([4, 8, 16, 30, 60])):
+        c = rng.random()
+        free = [x for x in range(n) if sp.free(x)]
+        anyx = lambda: rng.randrange(0, n + 2)
+        i = rng.randrange(2)
+        if c < 0.30:
+            x = rng.choice(free) if free and rng.random() < 0.9 else anyx()
+            t = rng.choice(["la%d:%d" % (i, x), "la%d:%d" % (i, x), "pa:%d" % x, "pa:%d" % x, "qa:%d" % x])
+        elif c < 0.45:
+            src = rng.choice([("lr%d" % i, sp.l[i]), ("pr", sp.p)])
+            x = rng.choice(src[1]) if src[1] and rng.random() < 0.9 else anyx()
+            t = "%s:%d" % (src[0], x)
+        elif c < 0.60:
+            t = rng.choice(["lf%d" % i, "pf", "qp"])
+        elif c < 0.70:
+            t = "pm%d:%d" % (i, rng.choice([0, 1, 2, 2, 3, 1, 5]))
+        elif c < 0.78:
+            t = "ps%d" % i
+        elif c < 0.83:
+            t = rng.choice(["ld%d" % i, "qd"])
+        elif c < 0.92:
+            t = "mk:%d:%d" % (anyx(), rng.choice([0, 1, 2, 3, 4]))
+        else:
+            t = "it:%d" % anyx()
+        sp.step(t)
+        ops.append(t)
+    return "%d %s" % (n, " ".join(ops))
+
+
+def lists_probe(prop, tier, seed, rep, vals_line=None):
+    """C11 / C02: the intrusive lists of src/lists.rs (LinkedList, PossibleCycles with its cached size, LinkedQueue) driven on
+    scratch boxes through the hook `lists_run`, against (a) the pointer-level Lean model Model/Lists.lean, which
+    Proofs/ListsRefine.lean proves refines plain lists, and (b) that plain-list specification evaluated here."""
+    ok, log = cargo_build(F_ALL)
+    if not ok:
+        raise RuntimeError("cargo build failed: " + log[-500:])
+    rng = random.Random(seed * 131 + 17)
+    ncases = 4000 if tier == "quick" else 60000
+    corpus = ["3 pa:0 pa:1 pa:2 pr:1 pf pf pf pf", "4 la0:0 la0:1 pa:2 pa:3 ps0 pm0:2 pf pf pf pf pf",
+              "4 qa:0 qa:1 qa:2 qp qa:0 qp qp qp qp", "3 la0:0 la0:1 la0:2 lr0:0 lr0:2 lr0:1 la0:1 ld0 la1:1",
+              "5 pa:0 pa:1 la1:2 la1:3 pm1:2 pr:2 pr:0 pr:3 pa:0 ps0 lf0 lf0 pm0:1", "2 pa:0 it:0 it:0 mk:0:1 la0:1 pm0:3 pf pf"]
+    cases = corpus + [lists_case(rng) for _ in range(ncases)]
+    text = "\n".join(cases) + "\n"
+    p1 = subprocess.run([corr.harness_bin(F_ALL), "lists"], input=text, capture_output=True, text=True, timeout=1200)
+    p2 = subprocess.run([corr.DRIVER, "lists"], input=text, capture_output=True, text=True, timeout=1200)
+    io, mo = p1.stdout.splitlines(), p2.stdout.splitlines()
+    nops = 0
+    wrong = []
+    mism = []
+    ophist = {}
+    for ci, c in enumerate(cases):
+        toks = c.split()
+        sp = ListsSpec(int(toks[0]))
+        exp = []
+        for t in toks[1:]:
+            sp.step(t)
+            exp.append(sp.show())
+            ophist[t[:2]] = ophist.get(t[:2], 0) + 1
+        nops += len(exp)
+        a = [x.strip() for x in io[ci].split("|")] if ci < len(io) else None
+        b = [x.strip() for x in mo[ci].split("|")] if ci < len(mo) else None
+        if a != exp:
+            k = next((j for j in range(len(exp)) if a is None or j >= len(a) or a[j] != exp[j]), len(exp))
+            wrong.append((c, k, exp[k] if k < len(exp) else "-", (a[k] if a is not None and k < len(a) else "(no output)")))
+        if b != a:
+            mism.append((c, a, b))
+    cov = {"lists_cases": len(cases), "lists_operations": nops, "lists_op_histogram": dict(sorted(ophist.items())),
+           "lists_spec_violations": len(wrong), "lists_model_mismatches": len(mism), "extra_evaluations": nops}
+    if p1.returncode != 0 and not wrong:
+        wrong.append((cases[min(len(io), len(cases) - 1)], 0, "-", "harness crashed rc=%s" % p1.returncode))
+    if wrong:
+        # shrink: shortest prefix of the shortest failing case that still deviates, then drop single operations greedily
+        def deviates(lines):
+            pr = subprocess.run([corr.harness_bin(F_ALL), "lists"], input="\n".join(lines) + "\n", capture_output=True, text=True, timeout=600)
+            outs = pr.stdout.splitlines()
+            res = []
+            for li, l in enumerate(lines):
+                tk = l.split()
+                s2 = ListsSpec(int(tk[0]))
+                ex = []
+                for t in tk[1:]:
+                    s2.step(t)
+                    ex.append(s2.show())
+                got = [x.strip() for x in outs[li].split("|")] if li < len(outs) else None
+                res.append((got != ex, ex[-1] if ex else "-", (got[-1] if got else "(no output)")))
+            return res
+        c, k, e, g = min(wrong, key=lambda w: len(w[0].split()))
+        toks = c.split()
+        try:
+            prefixes = [" ".join(toks[:j]) for j in range(2, len(toks) + 1)]
+            r = deviates(prefixes)
+            j = next((j for j, x in enumerate(r) if x[0]), len(prefixes) - 1)
+            cur = prefixes[j].split()
+            e, g = r[j][1], r[j][2]
+            changed = True
+            while changed and len(cur) > 2:
+                changed = False
+                cands = [cur[:1] + cur[1:d] + cur[d + 1:] for d in range(1, len(cur) - 1)]
+                rr = deviates([" ".join(x) for x in cands])
+                for x, y in zip(cands, rr):
+                    if y[0]:
+                        cur, e, g, changed = x, y[1], y[2], True
+                        break
+            short = " ".join(cur)
+        except Exception:
+            short = " ".join(toks[:k + 2])
+        rep.violation("impl-vs-property", ["# lists mode, one case: <n> <op> ...   (replay: echo '<line>' | harness lists)", short,
+                                            "# expected after the last operation: " + e, "# crate:                             " + g],
+                      "src/lists.rs deviates from the list specification on %d of %d cases; shortest: `%s`: expected `%s`, crate `%s`" % (
+                          len(wrong), len(cases), short, e, g), True, signature="lists-rule")
+    elif mism or p2.returncode != 0:
+        c, a, b = mism[0] if mism else (cases[0], None, None)
+        detail = "lists correspondence (Model/Lists.lean vs src/lists.rs) broke on %d cases, e.g. `%s`" % (len(mism), c)
+        rep.violation("model-disagreement", ["# " + detail, c], detail, False, signature="corr:lists")
+    return cov
+
+
+EXTRA_STEPS = {"C16": words_probe, "C15": policy_probe, "C03": layout_and_cycles_probe, "C13": layout_probe, "C11": lists_probe, "C02": lists_probe}
 
 
 def simple_probe_check(prop, tier, seed, rep, runner):
